@@ -14,7 +14,14 @@ VENDOR_3GPP = 10415
 TICK = 0.25
 
 
-def config(role, apps=(), watchdog=30, transport="tcp"):
+def config(role, apps=(), watchdog=30, transport="tcp", port_offset=0):
+    cfg = _config(role, apps, watchdog, transport)
+    cfg["LOCAL_NODE_PORT"] += port_offset
+    cfg["PEER_NODE_PORT"] += port_offset
+    return cfg
+
+
+def _config(role, apps=(), watchdog=30, transport="tcp"):
     return {
         "MODE": role.upper(),
         "TRANSPORT_TYPE": transport.upper(),
@@ -128,7 +135,7 @@ def header_of(msg):
 # -- the node -----------------------------------------------------------------------------------------------
 
 class Node:
-    def __init__(self, rt, role, apps=(S6A,), watchdog=30, send_buffer=None, sleep_timer=1.0, transport="tcp"):
+    def __init__(self, rt, role, apps=(S6A,), watchdog=30, send_buffer=None, sleep_timer=1.0, transport="tcp", port_offset=0):
         import bromelia.setup as SU
         import bromelia.statemachine as SM
         self.rt, self.role = rt, role
@@ -139,7 +146,8 @@ class Node:
         SU.SEND_BUFFER_MAXIMUM_SIZE = send_buffer if send_buffer is not None else 4096 * 64
         self.SU = SU
         self.transport_kind = transport
-        self.diameter = SU.Diameter(config=config(role, apps, watchdog, transport))
+        self.local_port = LOCAL["port"] + port_offset
+        self.diameter = SU.Diameter(config=config(role, apps, watchdog, transport, port_offset))
         self.peer = fakenet.PeerEnd(rt)
         self.tm = shims.make_time()
         self.handshake_request = None
@@ -174,7 +182,7 @@ class Node:
             self.handshake_request = got[0]
             p.send(cea(h["hbh"], h["e2e"], apps=self.apps) if valid else cea(h["hbh"], h["e2e"], host="intruder.example"))
             return True
-        addr = (LOCAL["ip"], LOCAL["port"])
+        addr = (LOCAL["ip"], self.local_port)
         if p.connect(addr) is None:
             return False
         p.send(cer(apps=self.apps) if valid else cer(host="intruder.example", apps=self.apps))
